@@ -106,6 +106,22 @@ fn sweep(m: &Msg, run: Run, tier: Tier, rep: &mut Report) {
         if cd as u64 > bound {
             rep.violation(&key("cost-above-model"), format!("decoding cost {cd} exceeds {UPPER_K} x the documented model cost {}", mc.decoding), case(json!({"model": mc.decoding})));
         }
+        // skipped data is charged to the skipping quota, and not more than the documented model says
+        let sbound = UPPER_K * mc.skipping + SKIP_SLACK;
+        if cs as u64 > sbound {
+            rep.violation(
+                &key("skipping-cost-above-model"),
+                format!("skipping cost {cs} exceeds {UPPER_K} x the documented cost {} of the skipped values (+{SKIP_SLACK})", mc.skipping),
+                case(json!({"model_skipping": mc.skipping})),
+            );
+        }
+        if mc.skipping > 0 {
+            let r = (cs as u64 * 100) / mc.skipping;
+            let lo = r / 50 * 50;
+            rep.outcome(&format!("skipping/model:{:04}-{:04}%", lo, lo + 49));
+        } else {
+            rep.outcome(&format!("skipping-with-nothing-skipped:{cs}"));
+        }
         // distribution of measured cost / documented model (buckets of 50%)
         let ratio_pct = (cd as u64 * 100) / mc.decoding.max(1);
         let lo = ratio_pct / 50 * 50;
@@ -182,6 +198,8 @@ fn sweep(m: &Msg, run: Run, tier: Tier, rep: &mut Report) {
 /// chosen after measuring the unchanged tree (max observed ratio is reported in the
 /// evidence as max_cost_over_model_percent); see DESIGN.md C07
 const UPPER_K: u64 = 4;
+/// slack of the skipping-cost bound (fixed per-message charges)
+const SKIP_SLACK: u64 = 16;
 
 pub fn run(tier: Tier, replay: Option<&str>) -> i32 {
     let lim = Limits::default();
@@ -258,6 +276,81 @@ pub fn run(tier: Tier, replay: Option<&str>) -> i32 {
         }
     });
     rep.merge(r2);
+    // ---- native targets fed by a newer sender: every record of the wire type carries one surplus
+    //      field (before, between, after the wanted fields; map entries included); small values and
+    //      one large value per type, so that the wanted payload dominates the cost of the skipped field
+    let extras = mclib::scopes::widen_extras();
+    let n_extras = tier.pick(3, extras.len());
+    let wstep = tier.pick(2, 1);
+    let r3 = ctx.par_range("native targets: wire records with a surplus field x every quota", n, 2, corpus_all::entries, |es, i, rep| {
+        if i % wstep != 0 {
+            return;
+        }
+        let e = &es[i as usize];
+        let (menv, mty) = (e.model_ty)();
+        // values: the first and last small value, and a large one
+        let mut vals: Vec<(String, Val)> = vec![];
+        let nv = (e.nvals)();
+        for vi in [0, nv.saturating_sub(1)] {
+            if let Ok((_, v)) = (e.encode)(vi) {
+                if !vals.iter().any(|x| x.1 == v) {
+                    vals.push((format!("#{vi}"), v));
+                }
+            }
+        }
+        let mut ctr = 0u64;
+        if let Some(v) = mclib::scopes::big_val(&menv, &mty, &mut ctr, 6, 4) {
+            vals.push(("big".into(), v));
+        }
+        for (vname, v) in &vals {
+            // the unchanged message decoded natively is the expected result of every widened one
+            let Ok(orig) = wire::encode(&menv, &[mty.clone()], &[v.clone()], true) else { continue };
+            let Native::Ok { val: expect, .. } = (e.decode)(&orig) else {
+                rep.outcome("wide:base-value-not-decodable-natively");
+                continue;
+            };
+            for pos in mclib::scopes::WIDEN_POSITIONS {
+                for (xname, xt, xv) in extras.iter().take(n_extras) {
+                    let wty = mclib::scopes::widen_ty(&mty, pos, xt);
+                    let wenv = mclib::scopes::widen_env(&menv, pos, xt);
+                    let wv = mclib::scopes::widen_val(v, pos, xv);
+                    if wv == *v {
+                        continue; // no record in this value
+                    }
+                    let Ok(bytes) = wire::encode(&wenv, &[wty.clone()], &[wv], true) else { continue };
+                    let Ok(d) = wire::decode(&bytes, &lim) else { continue };
+                    let env = d.env.merge_disjoint(&menv);
+                    let mc = cost::message(&env, d.header_len as u64, &d.vals, &d.tys, &[mty.clone()], d.header.table.len() as u64, false);
+                    let m = Msg { label: format!("native-wide:{}:{vname}:{pos:?}:{xname}", e.name), bytes, model: Some(mc), untyped: false };
+                    let unordered = e.unordered;
+                    let cv = |val: Val| if unordered { corpus::canon(&val) } else { val };
+                    let run = |dq: Option<usize>, sq: Option<usize>| {
+                        let (o, a, b) = (e.decode_cfg)(&m.bytes, dq, sq);
+                        let o = match o {
+                            Native::Ok { val, .. } => Out::Ok(vec![cv(val)]),
+                            Native::Err(s) => {
+                                if is_quota(&s) {
+                                    Out::Quota
+                                } else {
+                                    Out::Other(s)
+                                }
+                            }
+                            Native::Panic(p) => Out::Panic(p),
+                        };
+                        (o, a, b)
+                    };
+                    // (what the surplus field does to the decoded value is C02/C08's question; counted here)
+                    match run(None, None).0 {
+                        Out::Ok(got) if got == vec![cv(expect.clone())] => rep.outcome("wide:same-value-as-without-surplus-field"),
+                        Out::Ok(_) => rep.outcome("wide:DIFFERENT-value-than-without-surplus-field"),
+                        _ => rep.outcome("wide:not-decodable"),
+                    }
+                    sweep(&m, &run, tier, rep);
+                }
+            }
+        }
+    });
+    rep.merge(r3);
     // ---- zero-sized element bombs and surplus data at native targets
     let zs = ctx.par_range("native targets: zero-sized elements and surplus arguments", 1, 1, corpus_all::entries, |es, _, rep| {
         let find = |n: &str| es.iter().find(|e| e.name == n).expect("type");
@@ -329,7 +422,7 @@ pub fn run(tier: Tier, replay: Option<&str>) -> i32 {
     finish(
         &ctx,
         rep,
-        "messages: successful (wire, expected) cases of the C02 scope families B-F through the untyped API (every k-th), every small value of every corpus Rust type through native decoding, vectors of 0/1/17/500 zero-sized elements, surplus arguments; for each message the cost (decoding, skipping) is measured with generous quotas, then EVERY decoding quota 0..=cost+2, every skipping quota 0..=cost+2 and the 9 quota pairs around the thresholds are replayed: each run is a quota error or exactly the unmetered result, success is monotone with threshold <= reported cost, reported cost is the same under every quota; cost >= value nodes materialised or skipped, skipping cost >= skipped nodes, cost <= 4 x documented model (4 x header bytes + C(v:t), 50x on skipped / untyped). Non-trivial = messages whose sweeps ran.",
+        "messages: successful (wire, expected) cases of the C02 scope families B-F through the untyped API (every k-th), every small value of every corpus Rust type through native decoding, vectors of 0/1/17/500 zero-sized elements, surplus arguments, and every corpus type fed by a widened wire type (each record, map entries included, carries one surplus field of type nat32 / text / opt record / vec text / float64 / int placed before, between or after the wanted fields; small values and one large value per type); for each message the cost (decoding, skipping) is measured with generous quotas, then EVERY decoding quota 0..=cost+2, every skipping quota 0..=cost+2 and the 9 quota pairs around the thresholds are replayed: each run is a quota error or exactly the unmetered result, success is monotone with threshold <= reported cost, reported cost is the same under every quota; cost >= value nodes materialised or skipped, skipping cost >= skipped nodes, cost <= 4 x documented model (4 x header bytes + C(v:t), 50x on skipped / untyped), skipping cost <= 4 x documented cost of the skipped values + 16. Non-trivial = messages whose sweeps ran.",
         &["R5 cost model as documented with set_decoding_quota; R2 node counts; R4 decides which parts are skipped", "upper-bound constant K=4 chosen from the measured maximum ratio on the unchanged tree (reported as max_cost_over_model_percent)"],
         json!({"upper_bound_K": UPPER_K}),
     )
